@@ -661,7 +661,11 @@ class EltoritoBootCatalog:
             self.state = self.EXPECTING_SECTION_HEADER_OR_DONE
         else:
             val = bytes(bytearray([valstr[0]]))
-            if val == b'\x00':
+            # A Section Entry that is not bootable also starts with a zero byte;
+            # it is only the end of the catalog if the last Section Header is
+            # not waiting for more entries.
+            expecting_entry = bool(self.sections) and len(self.sections[-1].section_entries) < self.sections[-1].num_section_entries
+            if val == b'\x00' and not expecting_entry:
                 # An empty entry tells us we are done parsing El Torito.  Do
                 # some sanity checks.
                 last_section_index = len(self.sections) - 1
